@@ -45,9 +45,8 @@ def _select_unit(ctx, clsname):
             soln_decn = decn
             soln_obj = objs
 
-        class Me:
-            pass
-        me = Me()
+        import importlib
+        me = loopcut.stub_of(getattr(importlib.import_module("pybrops.breed.prot.sel." + clsname), clsname))
         me.nobj = nobj
         me.ncross, me.nparent, me.nmating, me.nprogeny = object(), object(), object(), object()
         w = sym.fresh_real("ndset_wt")
@@ -107,3 +106,102 @@ def _reg_select(clsname):
 
 for _c in PROTOCOLS:
     _reg_select(_c)
+
+
+# ---------------------------------------------------------------------------------------------------
+# sample_xconfig of the eight configuration classes: which sampler gets which option set / weights, with replacement off,
+# the requested shape and the configuration's own generator; post-processing order; result stored and returned
+CFG = SEL + "cfg/"
+CONFIGS = {
+    # class: (sampler, encoding of the decision, mate?)
+    "SubsetSelectionConfiguration": ("tiled_choice", "subset", False),
+    "IntegerSelectionConfiguration": ("tiled_choice", "count", False),
+    "BinarySelectionConfiguration": ("tiled_choice", "count", False),
+    "RealSelectionConfiguration": ("stochastic_universal_sampling", "weight", False),
+    "SubsetMateSelectionConfiguration": ("tiled_choice", "subset", True),
+    "IntegerMateSelectionConfiguration": ("tiled_choice", "count", True),
+    "BinaryMateSelectionConfiguration": ("tiled_choice", "count", True),
+    "RealMateSelectionConfiguration": ("stochastic_universal_sampling", "weight", True),
+}
+
+
+@unit(P, "A1[sample_xconfig of the eight configuration classes: sampler, option set / weights, shape, generator, post-processing]", "A1",
+      targets=[CFG + c + ".py:" + c + ".sample_xconfig" for c in sorted(CONFIGS)])
+def u_sample_xconfig(ctx):
+    """proxy execution of the real methods with recording stand-ins for the four sampling subroutines (their own contracts:
+    C17) and a recording generator; the decision vector is concrete data of no particular meaning"""
+    ctx.trust("the sampling subroutines are used through their contracts (C17): tiled_choice(options, size, replace=False) uses every option "
+              "equally often up to one; stochastic_universal_sampling(a, p, size) selects a[i] floor/ceil(size*p_i/sum p) times; "
+              "outcross_shuffle / axis_shuffle / Generator.shuffle permute their argument in place")
+    for cname, (sampler, enc, mate) in sorted(CONFIGS.items()):
+        log = []
+        tok_rng = loopcut.Token("self.rng")
+
+        class Rng:
+            def shuffle(self_, x):
+                log.append(("rng.shuffle", x))
+        rng = Rng()
+
+        def rec(nm):
+            import inspect
+            import pybrops.core.random.sampling as S
+            sig = inspect.signature(getattr(S, nm))
+
+            def f_(*a, **k):
+                b = sig.bind(*a, **k)          # positional or keyword: the arguments are read by parameter name
+                b.apply_defaults()
+                log.append((nm, b.arguments))
+                if nm in ("tiled_choice", "stochastic_universal_sampling"):
+                    size = b.arguments["size"]
+                    f_.out = numpy.arange(int(numpy.prod(size))).reshape(size) % 3
+                    return f_.out
+                return None
+            return f_
+        recs = {n_: rec(n_) for n_ in ("tiled_choice", "stochastic_universal_sampling", "outcross_shuffle", "axis_shuffle")}
+        f = loopcut.Extracted(CFG + cname + ".py:" + cname + ".sample_xconfig", overrides=recs)
+
+        import importlib
+        me = loopcut.stub_of(getattr(importlib.import_module("pybrops.breed.prot.sel.cfg." + cname), cname))
+        me.rng = rng
+        me.ncross, me.nparent = 4, 2
+        if enc == "subset":
+            me.xconfig_decn = numpy.array([7, 2, 5])
+        elif enc == "count":
+            me.xconfig_decn = numpy.array([2, 0, 1, 3])
+        else:
+            me.xconfig_decn = numpy.array([0.25, 0.0, 0.5, 0.25])
+        me.xconfig_xmap = numpy.array([[0, 1], [0, 2], [1, 2], [2, 2]])
+        out = f(me, True)
+        names = [c[0] for c in log]
+        smp = [c for c in log if c[0] in ("tiled_choice", "stochastic_universal_sampling")]
+        ok_one = len(smp) == 1 and smp[0][0] == sampler
+        ctx.record("%s:draws-once-with-%s" % (cname, sampler), ok_one, detail=str(names))
+        if not ok_one:
+            continue
+        arg = smp[0][1]
+        size = arg["size"]
+        want_size = (me.ncross,) if mate else (me.ncross, me.nparent)
+        ctx.record("%s:requested-shape-is-%s" % (cname, "(ncross,)" if mate else "(ncross,nparent)"),
+                   tuple(size if isinstance(size, (tuple, list)) else (size,)) == want_size, detail=str(size))
+        ctx.record("%s:sampler-draws-from-the-configuration's-generator" % cname, arg.get("rng") is rng, detail=str(arg.get("rng")))
+        n = len(me.xconfig_decn)
+        if sampler == "tiled_choice":
+            opts = numpy.asarray(arg["a"])
+            want = me.xconfig_decn if enc == "subset" else numpy.repeat(numpy.arange(n), me.xconfig_decn)
+            ctx.record("%s:options-are-%s" % (cname, "the chosen subset" if enc == "subset" else "each index repeated by its count"),
+                       opts.shape == want.shape and bool((opts == want).all()), detail="%s vs %s" % (opts.tolist(), want.tolist()))
+            ctx.record("%s:without-replacement" % cname, arg["replace"] is False, detail=str(arg["replace"]))
+        else:
+            ctx.record("%s:elements-are-the-indices-and-weights-are-the-contributions" % cname,
+                       numpy.array_equal(numpy.asarray(arg["a"]), numpy.arange(n)) and numpy.array_equal(numpy.asarray(arg["p"]), me.xconfig_decn),
+                       detail=str((arg["a"], arg["p"])))
+        drawn = recs[sampler].out
+        if mate:
+            ctx.record("%s:then-shuffles-the-draw-with-its-generator-and-looks-the-crosses-up-in-the-cross-map" % cname,
+                       names == [sampler, "rng.shuffle"] and log[1][1] is drawn and numpy.array_equal(out, me.xconfig_xmap[drawn, :]),
+                       detail=str(names))
+        else:
+            ctx.record("%s:then-outcross_shuffle-then-axis_shuffle(axis 0)-on-the-draw-with-its-generator" % cname,
+                       names == [sampler, "outcross_shuffle", "axis_shuffle"] and log[1][1]["xconfig"] is drawn and log[1][1]["rng"] is rng
+                       and log[2][1]["a"] is drawn and log[2][1]["axis"] in (0, (0,)) and log[2][1]["rng"] is rng, detail=str(names))
+        ctx.record("%s:result-stored-and-returned" % cname, out is me.xconfig and (mate or out is drawn))
